@@ -217,6 +217,16 @@ func compactStack(msg string, n int) string {
 	if len(msg) <= n {
 		return msg
 	}
+	// a SIGQUIT dump lists every goroutine: keep the head and the block of the evaluating goroutine
+	if k := strings.Index(msg, "(*Interp).Main("); k >= 0 && strings.HasPrefix(msg, "stopped after") {
+		if g := strings.LastIndex(msg[:k], "\ngoroutine "); g >= 0 {
+			head := msg
+			if e := strings.Index(msg, "\n\n"); e >= 0 {
+				head = msg[:e]
+			}
+			msg = head + "\n" + msg[g:]
+		}
+	}
 	var b strings.Builder
 	for _, l := range strings.Split(msg, "\n") {
 		if strings.HasPrefix(l, "\t") {
@@ -361,7 +371,10 @@ func runAll(jobsPath, outPath string, n int, memKB int64, sec int, deferStalls b
 				defer rmu.Unlock()
 				if oc == "hang" {
 					stalls++
-					last = msg
+					// keep the dump that shows the evaluating goroutine
+					if last == "" || (!strings.Contains(last, "(*Interp).Main(") && strings.Contains(msg, "(*Interp).Main(")) {
+						last = msg
+					}
 				} else if done == nil {
 					done = &rec{Outcome: oc, Msg: compactStack(msg, 8000), Ms: res.Ms}
 				}
